@@ -168,6 +168,8 @@ REGRESSION_PROGRAMS = [
     'f"{x:{y:1}{z}}"\n', 'f"{x:{y:{z}}{w}}"\n', "f'{x:{y:>{w}}{z!r:{q}}}'\n", 'f"{a:{b:{c}}d{e}f}"\n', "x = f'''{x:{y:1}\n{z}}'''\n",
     # raw f-strings: \N is no escape there, the braces after it open a replacement field
     's = rf"\\N{x}"\n', "s = fr'''\\N{x}{y}'''\n", 's = Rf"a\\N{x}\\{y}"\n', 's = f"\\N{DASH}{x}"\n',
+    # a named unicode escape inside a format spec is literal text (not a replacement field), except in raw f-strings
+    "s = f'{x:\\N{BULLET}}'\n", "s = f'{x:\\N{EM DASH}>5}'\n", "s = f'{x:{y}\\N{BULLET}}'\n", "s = rf'{x:\\N{y}}'\n",
     # issues that are reported out of source order (scope checks at the end of a function, a keyword reported on the module):
     # a line that already has an issue is reported again after another line got one
     "def f(x):\n    break; global x\n    continue\n", "x = 1 +\ny = (\nreturn",
